@@ -63,6 +63,8 @@ def strategy(tier):
         # the peer writes its SESS_INIT in clear right behind its contact header, in one flight, and then says nothing
         # under TLS: when TLS is used that SESS_INIT must not count
         'inject': st.sampled_from([False, False, True]),
+        # an idle time: a refused peer that then stays silent must not keep the connection for ever
+        'idle': st.sampled_from([0, 0, 5]),
     })
 
 
@@ -74,6 +76,9 @@ def enumerate_cases(tier):
     for sans, active, by_name, req_host, req_node in itertools.product(combos, (False, True), (False, True), (False, True), (False, True)):
         yield {'kind': 'cert', 'active': active, 'sans': list(sans), 'nodeid': 'dtn://peer/', 'req_host': req_host,
                'req_node': req_node, 'require_tls': None, 'by_name': by_name}
+        if req_node and not by_name:
+            yield {'kind': 'cert', 'active': active, 'sans': list(sans), 'nodeid': 'dtn://peer/', 'req_host': req_host,
+                   'req_node': req_node, 'require_tls': None, 'by_name': by_name, 'idle': 5}
     for active, enable, require, peer_can, hs, cert in itertools.product(
             (False, True), (False, True), (None, True, False), (False, True), ('ok', 'fail'), (None, ['ip-match'])):
         yield {'kind': 'table', 'active': active, 'tls_enable': enable, 'require_tls': require, 'peer_can_tls': peer_can,
@@ -239,8 +244,10 @@ def execute(case):
     nodeid = case.get('nodeid', '')
     der = make_cert(sans, peer_addr, nodeid)
     script = {'handshake': case.get('handshake', 'ok'), 'peer_cert_der': der}
+    idle_s = int(case.get('idle') or 0)
     cfg = tw.make_config('dtn://real/', tls_script=script, tls_enable=enable, require_tls=case.get('require_tls'),
-                         require_host_authn=bool(case.get('req_host')), require_node_authn=bool(case.get('req_node')))
+                         require_host_authn=bool(case.get('req_host')), require_node_authn=bool(case.get('req_node')),
+                         idle_time=idle_s)
     world = tw.World(cfg, scripted=True, real_is_passive=not active, peer_name='node.example' if case.get('by_name') else None)
     end = world.real
     hdl = end.hdl
@@ -261,6 +268,19 @@ def execute(case):
                 pass
         world.settle()
     want = policy(case, peer_addr)
+    if idle_s and not end.sock.closed and want['proceed'] and not want['established'] and not inject:
+        # the refused peer now simply stays silent: with an idle time configured the endpoint, which is terminating,
+        # must end by closing (nothing else will ever happen on this connection)
+        from vlib import simloop
+        for _ in range(3):
+            world.advance_to_next_timer(limit_ms=simloop.CLOCK.now_ms + idle_s * 1000 + 1)
+            world.settle()
+        simloop.advance_to(simloop.CLOCK.now_ms + idle_s * 1000 + 1)
+        world.settle()
+        out.label('refused-then-silent')
+        if not end.sock.closed:
+            out.fail('refused-contact-never-closes', 'the session was refused (SESS_TERM sent), idle_time is %d s, the peer stayed silent for '
+                     'more than that and the endpoint still has not closed (state %s)' % (idle_s, hdl._state))
     if inject and want['attempt'] and want['proceed']:
         # TLS is used and the only SESS_INIT the peer ever wrote travelled in clear before the handshake
         want = dict(want, established=False)
